@@ -380,6 +380,8 @@ func definitelyNonNil(v ssa.Value) bool {
 	case *ssa.Call:
 		n := calleeName(&x.Call)
 		return n == "fmt.Errorf" || n == "errors.New"
+	case *ssa.UnOp:
+		return isSentinelError(x)
 	}
 	return false
 }
